@@ -534,6 +534,12 @@ def add_bcrypt(reg, cost=None):
                      ensures={'value': 'salt is not None ==> result == spec.kdf.bcrypt(password, cost, salt)',
                               # (with salt=None the 16 salt bytes are fresh entropy: only the layout is stated)
                               'layout': 'len(result) == 60 and result[:7] == b"$2a$" + bytes([48 + cost // 10, 48 + cost % 10]) + b"$"'},
+                     # boundary inputs tried on the real function ONLY when the solver leaves an obligation undecided (cheap costs only:
+                     # a native run at cost c takes 2**c key schedules): the 72-byte / NUL boundary of the password, salt lengths around 16
+                     options={'candidates': ([{'password': pw, 'cost': cost, 'salt': salt}
+                                              for pw in (b'', b'a' * 71, b'a' * 72, b'a' * 73, b'a' * 71 + bytes(1), bytes(1), b'a' + bytes(1) + b'b', bytes(1) + b'a' * 70)
+                                              for salt in (bytes(range(16)), bytes(15), bytes(17))] if isinstance(cost, int) and cost <= 6 else
+                                             [{'password': b'a', 'cost': c, 'salt': bytes(range(16))} for c in (3, 32, -1)] if cost == 'refuse' else [])},
                      opaque=['spec.kdf.bcrypt_raw']))
     # ---- bcrypt_check: accepts exactly the matching password / hash pairs
     cost_h = '(10 * (bcrypt_hash[4] - 48) + (bcrypt_hash[5] - 48))'
